@@ -55,8 +55,10 @@ def main(argv=None):
         print(f"ANALYSIS-ERROR property={prop} {ex}")
         return 2
     except Exception:  # never let a traceback look like a violation
-        print(f"ANALYSIS-ERROR property={prop} internal error")
-        traceback.print_exc()
+        tb = traceback.format_exc().strip().splitlines()
+        print(f"ANALYSIS-ERROR property={prop} internal error: {tb[-1][:300]}")
+        for line in tb[-7:-1]:
+            print("    " + line[:200])
         return 2
 
 
